@@ -27,10 +27,10 @@ func init() {
 		notDecided: "equality of the optimised dynamic programme with the documented recurrence on every input; optimality of the reported alignment",
 	})
 	register(&propDef{
-		id:  "C05",
-		run: runC05,
+		id:          "C05",
+		run:         runC05,
 		explanation: "Structural clauses of purity: (R1) one scratch slab per worker goroutine, the streaming filter's single slab only under its mutex (shared with C13-R4); (R2) the scratch arrays carved from a slab are pairwise disjoint: in every function calling alloc16/alloc32 the offsets are chained (each call starts at the offset returned by the previous call of the same allocator, the first at 0); (R3) every criterion whose rank key is computed from the match's begin offset is one for which Run requests exact positions.",
-		notDecided: "that every read of a carved array is preceded by a write in the same call (stale scratch cells): needs value reasoning about F/H/C indices; dependence of positions/score on withPos",
+		notDecided:  "that every read of a carved array is preceded by a write in the same call (stale scratch cells): needs value reasoning about F/H/C indices; dependence of positions/score on withPos",
 	})
 }
 
@@ -250,7 +250,7 @@ func runC03(c *Ctx, r *Report) {
 	chk("bonusBoundary", bb == sm/2, "bonusBoundary == scoreMatch/2")
 	chk("bonusNonWord", bn == sm/2, "bonusNonWord == scoreMatch/2")
 	chk("bonusCamel123", bc == bb+ge, "bonusCamel123 == bonusBoundary + scoreGapExtension")
-	chk("bonusConsecutive", bcons == -(gs + ge), "bonusConsecutive == -(scoreGapStart + scoreGapExtension)")
+	chk("bonusConsecutive", bcons == -(gs+ge), "bonusConsecutive == -(scoreGapStart + scoreGapExtension)")
 	chk("bonusFirstCharMultiplier", mult == 2, "bonusFirstCharMultiplier == 2")
 	// values assigned to the scheme-dependent bonuses
 	maxBonus := bb
@@ -350,10 +350,10 @@ func runC03(c *Ctx, r *Report) {
 	c03r4(c, r)
 	c03r5(c, r)
 	c03r6(c, r)
-	c05r9(c, r) // the recurrence reads only cells of this call: boundary cells of shifted windows are initialised
-	c02r5(c, r) // 'over the whole line': the pre-filter window must not cut off upper-case occurrences
-	c13r3(c, r) // two scans must never fill the same score matrices at once
-	c02r8(c, r) // the scorer folds characters exactly as the loops that found the occurrence
+	c05r9(c, r)  // the recurrence reads only cells of this call: boundary cells of shifted windows are initialised
+	c02r5(c, r)  // 'over the whole line': the pre-filter window must not cut off upper-case occurrences
+	c13r3(c, r)  // two scans must never fill the same score matrices at once
+	c02r8(c, r)  // the scorer folds characters exactly as the loops that found the occurrence
 	c05r11(c, r) // the optimal algorithm is used whenever the line fits the (full-size) slab
 	mk := l.Fn("util", "MakeSlab")
 	r.curRule = "C03-R2"
@@ -434,15 +434,15 @@ func runC05(c *Ctx, r *Report) {
 		r.floor(an+" call sites", total, 2)
 	}
 	c05r3(c, r)
-	c13r3(c, r)   // a cancelled scan joins its workers before the slabs are reused
-	c05r9(c, r)   // no score cell is read that this call did not write
-	c05r10(c, r)  // ... including the back-trace's look-ahead
+	c13r3(c, r)  // a cancelled scan joins its workers before the slabs are reused
+	c05r9(c, r)  // no score cell is read that this call did not write
+	c05r10(c, r) // ... including the back-trace's look-ahead
 	c05r11(c, r)
 	c08r13(c, r) // results do not depend on what was searched before a change of --nth / the exclusion list
-	c02r5(c, r)   // bytes vs runes: the byte-only pre-filter must not change the result
-	c04r3(c, r)   // order purity: merge must agree with the per-partition sort
-	c08r5(c, r)   // per-item tokens must not survive a change of --nth
-	c08r3(c, r)   // nth/denylist change invalidates caches and bumps the revision
+	c02r5(c, r)  // bytes vs runes: the byte-only pre-filter must not change the result
+	c04r3(c, r)  // order purity: merge must agree with the per-partition sort
+	c08r5(c, r)  // per-item tokens must not survive a change of --nth
+	c08r3(c, r)  // nth/denylist change invalidates caches and bumps the revision
 }
 
 // C05-R3: criteria whose rank key is data-derived from the match's begin offset need exact positions.
